@@ -211,17 +211,36 @@ class Check:
         raise NotImplementedError
 
     def search(self):
-        """failing-input search after a broken proof obligation / correspondence: by default the
-        monitors already ran on everything in body(); subclasses add targeted streams."""
-        return
+        """failing-input search after a broken proof obligation / correspondence: the monitors already ran on
+        everything in body(); the default search runs the whole body again on further independent random streams
+        (only on a tree where something broke, so the time is spent where it matters) until a monitor produces a
+        concrete failing input or the budget (VERIF_SEARCH_SECONDS, default 300 s quick / 1200 s thorough) is used up."""
+        if self.bdir is None and self.needs_native:
+            return
+        budget = float(os.environ.get("VERIF_SEARCH_SECONDS", "300" if self.tier == "quick" else "1200"))
+        known = {k for k, _ in C.known_findings(self.pid)}
+        t0 = time.time()
+        k = 0
+        while time.time() - t0 < budget and k < 12:
+            k += 1
+            self.rng = random.Random((self.seed + 104729 * k) * 1000003 + int(self.pid[1:]))
+            try:
+                self.body()
+            except Exception:
+                break
+            if any(v.failing_input and v.key not in known for v in self.violations):
+                break
+        self.cov["search_streams"] = k
 
     def finish(self):
         # broken obligations / correspondences that no monitor turned into a concrete failing input
-        have_input = any(v.failing_input for v in self.violations)
+        # (a violation listed as a known finding is not a failing input for anything that broke now)
+        known = {k for k, _ in C.known_findings(self.pid)}
+        have_input = any(v.failing_input and v.key not in known for v in self.violations)
         if self.proof_broken or self.corr_broken:
             if not have_input:
                 self.search()
-                have_input = any(v.failing_input for v in self.violations)
+                have_input = any(v.failing_input and v.key not in known for v in self.violations)
             if not have_input:
                 what = []
                 for w, d in self.proof_broken[:5]:
@@ -254,7 +273,7 @@ class Check:
             # thorough tier: the whole body again on further independent random streams
             reps = int(os.environ.get("VERIF_THOROUGH_REPS", "3")) if self.tier == "thorough" else 1
             for k in range(1, reps):
-                if any(v.failing_input for v in self.violations):
+                if any(v.failing_input and v.key not in {k for k, _ in C.known_findings(self.pid)} for v in self.violations):
                     break
                 self.rng = random.Random((self.seed + 7919 * k) * 1000003 + int(self.pid[1:]))
                 self.body()
